@@ -3606,9 +3606,10 @@ impl Interpreter {
             // 1. null == undefined and undefined == null
             (JsValue::Undefined, JsValue::Null) | (JsValue::Null, JsValue::Undefined) => true,
 
-            // 2. Number == String: convert string to number
-            (JsValue::Number(n), JsValue::String(s)) => *n == s.parse().unwrap_or(f64::NAN),
-            (JsValue::String(s), JsValue::Number(n)) => s.parse().unwrap_or(f64::NAN) == *n,
+            // 2. Number == String: convert string to number (ToNumber, the same
+            // StringToNumber that unary plus and arithmetic use)
+            (JsValue::Number(n), JsValue::String(_)) => *n == right.to_number(),
+            (JsValue::String(_), JsValue::Number(n)) => left.to_number() == *n,
 
             // 3. Boolean == anything: convert boolean to number and compare again
             (JsValue::Boolean(b), other) => {
